@@ -80,6 +80,9 @@ pub struct MsgConfig {
     pub seed: [u8; 32],
     /// use explicit subpackets with a fixed creation time (output is then independent of the clock)
     pub fixed_sig_time: bool,
+    /// issuer hints of explicit subpackets (only with fixed_sig_time): 0 = fingerprint (hashed) and,
+    /// for v4 keys, key id (unhashed); 1 = fingerprint only; 2 = key id only (v4); 3 = none
+    pub issuer_hints: u8,
 }
 
 pub struct DrawOpts<'a> {
@@ -105,6 +108,7 @@ impl MsgConfig {
             armor: None,
             seed: [7; 32],
             fixed_sig_time: true,
+            issuer_hints: 0,
         }
     }
 
@@ -180,7 +184,7 @@ impl MsgConfig {
             1 => Some(false),
             _ => None,
         };
-        MsgConfig { src, utf8, chunk, compression, signers, sign_text, enc, passwords, recipients, armor, seed: t.seed32(), fixed_sig_time: t.bool() }
+        MsgConfig { src, utf8, chunk, compression, signers, sign_text, enc, passwords, recipients, armor, seed: t.seed32(), fixed_sig_time: t.bool(), issuer_hints: if t.chance(60) { t.range(1, 3) as u8 } else { 0 } }
     }
 
     pub fn labels(&self, rec: &mut Rec) {
@@ -330,12 +334,13 @@ impl MsgConfig {
                 use pgp::packet::{Subpacket, SubpacketData};
                 use pgp::types::KeyDetails;
                 let key = &z.secret.primary_key;
-                let hashed = vec![
-                    Subpacket::regular(SubpacketData::IssuerFingerprint(key.fingerprint()))?,
-                    Subpacket::regular(SubpacketData::SignatureCreationTime(pgp::types::Timestamp::from_secs(1_700_000_777)))?,
-                ];
+                let mut hashed = vec![];
+                if self.issuer_hints == 0 || self.issuer_hints == 1 {
+                    hashed.push(Subpacket::regular(SubpacketData::IssuerFingerprint(key.fingerprint()))?);
+                }
+                hashed.push(Subpacket::regular(SubpacketData::SignatureCreationTime(pgp::types::Timestamp::from_secs(1_700_000_777)))?);
                 let mut unhashed = vec![];
-                if z.version != pgp::types::KeyVersion::V6 {
+                if z.version != pgp::types::KeyVersion::V6 && (self.issuer_hints == 0 || self.issuer_hints == 2) {
                     unhashed.push(Subpacket::regular(SubpacketData::IssuerKeyId(key.legacy_key_id()))?);
                 }
                 b.sign_with_subpackets(key, Password::empty(), *h, pgp::composed::SubpacketConfig::UserDefined { hashed, unhashed });
